@@ -659,6 +659,31 @@ def selftest():
     assert read_seq_lock_span(emit_whole, *args)[0] == "SpanEmit"
     assert read_seq_lock_span(emit_narrow, *args)[0] == "SpanCounter"
     assert read_seq_lock_span(emit_drop, *args)[0] == "SpanCounter"
+    # history buffer statements
+    decl = "struct H { events: Arc<Mutex<Vec<Event>>> }\n"
+    tail_ok = decl + "async fn run(events: &X) { let guard = events.lock().await; let r = guard.iter().rev().count(); let _ = write_snapshot(&d, &id, &guard); drop(guard); }"
+    tail_take = decl + "async fn run(events: &X) { let frames = std::mem::take(&mut *events.lock().await); let _ = write_snapshot(&d, &id, &frames); *events.lock().await = frames; }"
+    tail_clear = decl + "async fn run(events: &X) { let mut guard = events.lock().await; let _ = write_snapshot(&d, &id, &guard); guard.clear(); }"
+    tail_new = decl + "async fn run(events: &X) { *events.lock().await = Vec::new(); }"
+    tail_odd = decl + "async fn run(events: &X) { let mut guard = events.lock().await; guard.rotate_left(1); }"
+    emit = decl + "async fn emit(events: &X) { let mut guard = events.lock().await; guard.push(event.clone()); }"
+    ops = lambda src: [o for _, _, o, _ in read_buffer_ops([("f.rs", src)])[0]["ops"]]
+    assert ops(tail_ok) == ["BRead", "BRead"], ops(tail_ok)
+    assert ops(tail_take) == ["BTake", "BRestore"], ops(tail_take)
+    assert ops(tail_clear) == ["BRead", "BClear"], ops(tail_clear)
+    assert ops(tail_new) == ["BClear"], ops(tail_new)
+    assert read_buffer_ops([("f.rs", tail_odd)])[0] is None
+    assert read_buffer_ops([("f.rs", emit)])[0] == {"ops": [], "pushes": {"f.rs": 1}}
+    # try_replay
+    cont = "impl S { pub fn replay_events(&self, continuity_id: &str) -> io::Result<Vec<Event>> { if let Ok(Some(events)) = self.stream_cache.try_replay(continuity_id) { return Ok(events); } let events = self.event_log.replay_stream(StreamKind::Continuity, continuity_id)?; Ok(events) } }"
+    tr = "impl C { fn try_replay(&self, id: &str) -> io::Result<Option<Vec<Event>>> { let mut events = Vec::new(); let mut expected_seq: u64 = %F%; for line in r.lines() { if event.seq %OP% expected_seq { return Err(e); } expected_seq = %UP%; events.push(event); } if events.is_empty() { return Err(e); } Ok(Some(events)) } }"
+    mk = lambda f, op, up: read_replay_check(tr.replace("%F%", f).replace("%OP%", op).replace("%UP%", up), cont)
+    assert mk("0", "!=", "expected_seq.saturating_add(1)")[0] == {"first": 0, "cmp": "SeqExact"}
+    assert mk("0", "<", "event.seq.saturating_add(1)")[0] == {"first": 0, "cmp": "SeqIncreasing"}
+    assert mk("1", "!=", "expected_seq.saturating_add(1)")[0] == {"first": 1, "cmp": "SeqExact"}
+    assert mk("0", "<", "expected_seq.saturating_add(1)")[0] is None
+    assert mk("0", ">", "event.seq + 1")[0] is None
+    assert read_replay_check(tr.replace("%F%", "0").replace("%OP%", "!=").replace("%UP%", "expected_seq + 1"), cont.replace("return Ok(events);", "let _ = events;"))[0] is None
     print("stream_order.py selftest ok")
 
 
